@@ -150,6 +150,16 @@ func Lifecycle(rng *wh.Rng, thorough bool) []Scenario {
 		p = append(p, fmt.Sprintf("whe:%d", 3*(n-1)), "wsd:0", "gate", fmt.Sprintf("whe:%d", 3*(n-1)+1), "close:1", "wclose", "wrr")
 		out = append(out, Scenario{Handlers: hs, Prog: p, Seed: rng.Next(), Conf: n == 2, WaitMs: 8000, Tag: fmt.Sprintf("life/stop-busy/%d", n)})
 	}
+	// a start-up that fails (one of three subscriptions is refused): Run returns the error, Running() stays open, a second Run is
+	// still refused; a later RunHandlers starts everything
+	out = append(out, Scenario{Handlers: []HandlerSpec{plain(0), {SubFail: 1}, plain(2)}, Seed: rng.Next(), Conf: true, WaitMs: 8000, Tag: "life/failed-start",
+		Prog: prog("add:0", "add:1", "add:2", "run", "wrr", "crun", "run2", "crun", "rh", "cst:0", "cst:1", "cst:2", "emit:1:1", "whe:1", "close:1", "wclose")})
+	// a second Run while the first one is still starting up (inside a slow Subscribe): refused at once; the first goes on normally
+	for n := 1; n <= 2; n++ {
+		hs, p := addAll(n, func(h int) HandlerSpec { return HandlerSpec{SubGate: true} })
+		p = append(p, "run", "wev:sub", "run2", "crun", "subgo", "wrun", "run2", "emit:0:1", "whe:1", "close:1", "wclose", "wrr")
+		out = append(out, Scenario{Handlers: hs, Prog: p, Seed: rng.Next(), Conf: n == 1, WaitMs: 8000, Isolate: true, Tag: fmt.Sprintf("life/run-during-startup/%d", n)})
+	}
 	// a second Run returns an error; RunHandlers on a router that is not running returns an error
 	out = append(out, Scenario{Handlers: []HandlerSpec{plain(0)}, Seed: rng.Next(), Conf: true, Tag: "life/second-run",
 		Prog: prog("add:0", "run", "wrun", "run2", "emit:0:1", "whe:1", "run2", "close:1", "wclose", "wrr")})
